@@ -517,6 +517,10 @@ def check(run: Run) -> None:
     check_untyped_caches(run, "R04.8")
     check_bool_before_int(run, "R04.4", [("core.emitter", "emit_value"), ("core.constraints", "TypeConstraint.evaluate"), ("core.constraints", "RangeConstraint.evaluate"), ("core.validator", "Validator._validate_type")])
     check_number_lexemes(run, "R04.5", lm)
+    run.rule("R04.9", "only str values are ever wrapped in double quotes by the emitter (a quoted 5 / true / null is read back as a string): every quoting site is control-dependent on isinstance(<value>, str) (shared with C15 R15.6, C18)", 4)
+    from .c18 import check_quote_str_only
+
+    check_quote_str_only(run, "R04.9")
     from .c18 import check_normalize
 
     check_normalize(run, "R04.6")
